@@ -147,7 +147,7 @@ pub struct MtState {
     pub trace_hash: u64,
     pub probes: BTreeMap<(u32, u8, u8), u64>,
     pub viols: Vec<Violation>,
-    pub mailbox: Vec<Vec<(HBox, u64, VC)>>,
+    pub mailbox: Vec<Vec<(HBox, u64, VC, Option<u64>)>>,
     pub context_switches: u64,
     pub parks: u64,
     pub confirms: u64,
@@ -174,6 +174,8 @@ pub struct MtState {
     pub outstanding: Vec<Option<(usize, u32)>>,
     // ---- C06 with threads in flight: memory image + obligations at atomic steps
     pub zombies: u64,
+    /// ids of DropCounter values whose non-detached handle has been dropped inside the simulation
+    pub expected_drops: Vec<u64>,
     pub crash_every: Option<u64>,
     pub crash_points: Vec<CrashPt>,
     pub last_global: (u32, u8, u8),
@@ -1071,6 +1073,9 @@ fn run_top(t: usize, op: &TOp, arenas: &mut Vec<Option<Box<Arena>>>, handles: &m
             }
             let th = handles.remove(h % handles.len());
             with(|s| {
+                if let Some(id) = th.drop_id {
+                    s.expected_drops.push(id);
+                }
                 check_intact(s, t, th.rid, "before its release");
                 if let Some(pos) = s.shadow.iter().position(|r| r.id == th.rid) {
                     let r = s.shadow.remove(pos);
@@ -1168,7 +1173,7 @@ fn run_top(t: usize, op: &TOp, arenas: &mut Vec<Option<Box<Arena>>>, handles: &m
                 if let Some(r) = s.shadow.iter_mut().find(|r| r.id == th.rid) {
                     r.owner = to;
                 }
-                s.mailbox[to].push((th.h, th.rid, c));
+                s.mailbox[to].push((th.h, th.rid, c, th.drop_id));
                 // remember drop id through rid: DropCounter handles are never sent (generator avoids), so None
             });
         }
@@ -1177,15 +1182,15 @@ fn run_top(t: usize, op: &TOp, arenas: &mut Vec<Option<Box<Arena>>>, handles: &m
                 if s.mailbox[t].is_empty() {
                     None
                 } else {
-                    let (h, rid, c) = s.mailbox[t].remove(0);
+                    let (h, rid, c, did) = s.mailbox[t].remove(0);
                     if s.hb {
                         hb_recv(s, t, &c);
                     }
-                    Some((h, rid))
+                    Some((h, rid, did))
                 }
             });
-            if let Some((h, rid)) = got {
-                handles.push(THandle { h, rid, owned: true, drop_id: None, arena_idx: None });
+            if let Some((h, rid, did)) = got {
+                handles.push(THandle { h, rid, owned: true, drop_id: did, arena_idx: None });
             }
         }
     }
@@ -1284,6 +1289,7 @@ pub fn install(arena: &Arena, p: &MtParams, initial_shadow: Vec<ShadowRange>) {
         mark_line: vec![0; n],
         outstanding: vec![None; n],
         zombies: 0,
+        expected_drops: Vec::new(),
         crash_every: p.crash_every,
         crash_points: Vec::new(),
         last_global: (0, 0, 0),
